@@ -64,7 +64,7 @@ CHECKS = {
         },
         "runs": [seq("HarnessC01T1", ["c01-end"]), seq("HarnessC01T2", ["c01-end"]), seq("HarnessC01T3L1", ["c01-end"], ["quick"]),
                  seq("HarnessC01T4L1", ["c01-end"], ["quick"]), seq("HarnessC01T5", ["c01-end"]), seq("HarnessC01T6", ["c01-end"]),
-                 seq("HarnessC01T7", ["c01-end"]), seq("HarnessC01T8", ["c01-end"], ["quick"]), seq("HarnessC01T8L2", ["c01-end"], ["thorough"], maxpaths=600000), seq("HarnessC01T9", ["c01-end"]), seq("HarnessC01T10", ["c01-end"]), conc("HarnessC02History2", ["c02-hist-end"]), conc("HarnessC05Seq", ["c05-end"]), conc("HarnessC04Aliasing", ["c04-aliasing-end"]), seq("HarnessC01Gen2", ["c01-gen-end"]),
+                 seq("HarnessC01T7", ["c01-end"]), seq("HarnessC01T8", ["c01-end"], ["quick"]), seq("HarnessC01T8L2", ["c01-end"], ["thorough"]), seq("HarnessC01T11", ["c01-end"]), seq("HarnessC01T9", ["c01-end"]), seq("HarnessC01T10", ["c01-end"]), conc("HarnessC02History2", ["c02-hist-end"]), conc("HarnessC05Seq", ["c05-end"]), conc("HarnessC04Aliasing", ["c04-aliasing-end"]), seq("HarnessC01Gen2", ["c01-gen-end"]),
                  seq("HarnessC01Gen2L2", ["c01-gen-end"], ["thorough"], maxpaths=2000000, timeout="3000s"), seq("HarnessC01Gen3", ["c01-gen-end"], ["thorough"], maxpaths=3000000, timeout="3000s"), seq("HarnessC01T3", ["c01-end"], ["thorough"]), seq("HarnessC01T4", ["c01-end"], ["thorough"]),
                  seq("HarnessC01T2L3", ["c01-end"], ["thorough"]), seq("HarnessC01T7L3", ["c01-end"], ["thorough"])],
         "bounds": {"quick": "8 types (scalars/durations, skipped fields in every position, nested+pointer+embedded structs, slices/maps/arrays, user pointers incl. two leaves aliasing one variable in the defaults, text-unmarshalable value+pointer, deep nesting, pointer-bearing arrays in slices / struct map keys holding pointers / pointer to an all-nilable struct); 2 layers (1 for the two biggest types); slices len<=2, maps <=1 entry; all scalar values; generated family: all 19+361 types of 1-2 fields over {int8,string,[]int16,map,*int,struct,*struct,[2]uint8,dials:\"-\",chan,func,text-unmarshalable,*all-nilable struct,[][1]*struct,map[struct-with-pointer]int8,map of maps,text-unmarshalable with reference fields,unmanaged map,*chan}, 1 layer; T9 (shared inner maps, unmanaged reference fields), T10 (shadowing skipped field, text-unmarshalable with references); two-watcher precedence (C05Seq) and the all-nilable-pointee aliasing scenario",
@@ -79,7 +79,7 @@ CHECKS = {
             "design_ref": "DESIGN.md §4 C02",
         },
         "runs": [conc("HarnessC02History2", ["c02-hist-end"]), seq("HarnessC01T4L1", ["c01-end"], ["quick"]), seq("HarnessC01T3L1", ["c01-end"], ["quick"]),
-                 seq("HarnessC01T6", ["c01-end"]), seq("HarnessC01T5", ["c01-end"]), seq("HarnessC01T8", ["c01-end"], ["quick"]), seq("HarnessC01T8L2", ["c01-end"], ["thorough"], maxpaths=600000), seq("HarnessC01T9", ["c01-end"]), seq("HarnessC01T10", ["c01-end"]), conc("HarnessC02History3", ["c02-hist-end"], ["thorough"]),
+                 seq("HarnessC01T6", ["c01-end"]), seq("HarnessC01T5", ["c01-end"]), seq("HarnessC01T8", ["c01-end"], ["quick"]), seq("HarnessC01T8L2", ["c01-end"], ["thorough"]), seq("HarnessC01T11", ["c01-end"]), seq("HarnessC01T9", ["c01-end"]), seq("HarnessC01T10", ["c01-end"]), conc("HarnessC02History3", ["c02-hist-end"], ["thorough"]),
                  seq("HarnessC01T4", ["c01-end"], ["thorough"]), seq("HarnessC01T3", ["c01-end"], ["thorough"])],
         "bounds": {"quick": "corpus types T3,T4,T5,T6,T8 with 1-2 layers (identity sets include map keys); 2 re-stacks with symbolic set/unset of a nested-pointer leaf and a scalar; T9, T10; every version is written through by its consumer before the next re-stack; defaults with an empty map held in an interface and a map only the defaults set",
                    "thorough": "2 layers on T3/T4; 3 re-stacks"},
